@@ -262,8 +262,10 @@ def oneCall (c : CallRec) : Bool :=
   | .sugar => !c.structured || c.joint
   | .formula => !c.structured || c.joint
 
-/-- one call per part: part `k` sees the caller's set as updated by the parts before it (or a
-fresh set when the caller passed none) -/
+/-- ONE PASS of the per-spec branch of `ModelSpecs.get_model_matrix` (one call per part): part `k`
+sees the shared set as updated by the parts before it (or a fresh set each time when none is
+shared). The branch makes a second pass when the set grew (`Model.Nulls.call`); the result of both
+passes together is that of the joint call (`Props.C06.per_part_calls`). -/
 def perPartExpected {L ρ : Type} (labels : List L) (n : Nat) (o : Output) :
     List (Part ρ) → Option DropSet → List (Matrix L ρ) × Option DropSet
   | [], d => ([], d)
